@@ -184,7 +184,8 @@ def verdicts_of(r):
 
 def run(ctx):
     cfg = "Otlp_quick.cfg" if ctx.quick else "Otlp_thorough.cfg"
-    r = ctx.tlc("Otlp", cfg, workers=4 if ctx.quick else 8, timeout=1500, xmx="6g")
+    # one worker: the BFS order, hence the set of printed scenarios, is deterministic
+    r = ctx.tlc("Otlp", cfg, workers=1, timeout=1500, xmx="6g")
     if r.violated:
         ctx.spec_violation(r, "Otlp.tla: %s violated by the transcription of the export path" % r.violated)
         return
